@@ -163,8 +163,29 @@ def volume(b, v, tier):
     cfgs = sl.stream_cfgs("full")
     singles = sl.Singles(b, wd)
     n = 0
+    # a log in which raw and already pseudonymised entries are mixed: lines whose database / collection / field names ARE the pseudonyms
+    # this very flag set gives to the names of other lines (what a line yields must not depend on whether those other lines came first)
+    import re as _re
+    base_line = pool.obj_line("cmd", 0, 3400000)
+    for cfg in cfgs:
+        if "-w" not in cfg.flags and "-f" not in cfg.flags:
+            continue
+        singles.need(cfg, [base_line])
+        o1 = (singles.get(cfg, base_line)["out"] or b"").decode("utf-8", "replace")
+        m = _re.search(r'"ns":"([^".]+)\.([^"]+)"', o1)
+        if m and m.group(1) != "dbZn":
+            twin = base_line.replace("dbZn", m.group(1)).replace("collZn", m.group(2)).replace("3400000", str(3400001 + len(distinct)))
+            distinct.append(("cmd", twin, 3400001 + len(distinct)))
+        keys = _re.findall(r'"((?:REDACTED|Rr)_[0-9a-f]{16})":', o1)
+        if keys:
+            twin2 = base_line.replace('"name"', '"%s"' % keys[0]).replace("3400000", str(3400001 + len(distinct)))
+            distinct.append(("cmd", twin2, 3400001 + len(distinct)))
     nlines = 3000 if tier == "quick" else 40000
     seq = [rng.choice(distinct) for _ in range(nlines)] + [("blank", "", 0)] * 50 + [rng.choice(distinct) for _ in range(200)]
+    # the log does not start with an entry: a banner of 150 lines that are no JSON objects (a wrapper's output, a legacy-format head) comes first
+    junk = [d for d in distinct if d[0] not in sl.OBJ_KINDS and d[0] != "blank" and d[1].strip()]
+    if junk:
+        seq = [junk[j % len(junk)] for j in range(150)] + seq
     for cfg in cfgs:
         singles.need(cfg, [t for k, t, _ in distinct if k in sl.OBJ_KINDS])
         exp = b"".join(singles.get(cfg, t)["out"] for k, t, _ in seq if k in sl.OBJ_KINDS)
